@@ -26,9 +26,33 @@ Proof.
   intros H. apply andb_true_iff in H as [Hx Hr]. rewrite Hf by auto. simpl. auto.
 Qed.
 
+Lemma forallb_map_all {A B} (p : B -> bool) (f : A -> B) l :
+  (forall x, p (f x) = true) -> forallb p (map f l) = true.
+Proof. intros Hf. induction l as [|x r IH]; simpl; auto. rewrite Hf. auto. Qed.
+
 Lemma forallb_snoc {A} (p : A -> bool) l x :
   forallb p l = true -> p x = true -> forallb p (l ++ [x]) = true.
 Proof. intros Hl Hx. rewrite forallb_app. rewrite Hl. simpl. rewrite Hx. reflexivity. Qed.
+
+Lemma forallb_set_nth {A} (p : A -> bool) i x l :
+  forallb p l = true -> p x = true -> forallb p (set_nth i x l) = true.
+Proof.
+  revert i. induction l as [|y r IH]; intros [|i] Hl Hx; simpl in *; auto;
+    apply andb_true_iff in Hl as [Hy Hr]; apply andb_true_iff; split; auto.
+Qed.
+
+Lemma forallb_nth {A} (p : A -> bool) i l d :
+  forallb p l = true -> p d = true -> p (nth i l d) = true.
+Proof.
+  revert i. induction l as [|y r IH]; intros [|i] Hl Hd; simpl in *; auto;
+    apply andb_true_iff in Hl as [Hy Hr]; auto.
+Qed.
+
+Lemma forallb_filter {A} (p q : A -> bool) l : forallb p l = true -> forallb p (filter q l) = true.
+Proof.
+  induction l as [|x r IH]; simpl; auto. intros H. apply andb_true_iff in H as [Hx Hr].
+  destruct (q x); simpl; auto. rewrite Hx. auto.
+Qed.
 
 Lemma find_some_forallb {A} (p q : A -> bool) l x :
   forallb p l = true -> find q l = Some x -> p x = true.
@@ -61,253 +85,895 @@ Proof.
   rewrite (Hq x Hx), IH; auto.
 Qed.
 
+Lemma insert_by_in {A} (le : A -> A -> bool) x z l : In x (insert_by le z l) -> x = z \/ In x l.
+Proof.
+  induction l as [|w l' IHl]; simpl.
+  - intros [E|[]]; auto.
+  - destruct (le z w); simpl.
+    + intros [E|[E|E]]; auto.
+    + intros [E|E]; auto. destruct (IHl E); auto.
+Qed.
+
+Lemma forallb_sort_by {A} (p : A -> bool) (le : A -> A -> bool) l :
+  forallb p l = true -> forallb p (sort_by le l) = true.
+Proof.
+  intros H. rewrite forallb_forall in *. intros x Hx. apply H. clear H.
+  unfold sort_by in Hx. induction l as [|y r IH]; simpl in *; auto.
+  destruct (insert_by_in _ _ _ _ Hx); subst; auto.
+Qed.
+
+Ltac split_ok :=
+  repeat match goal with
+         | H : _ && _ = true |- _ => apply andb_true_iff in H; destruct H
+         end.
+Ltac and_ok := repeat (apply andb_true_iff; split).
+
 (* ---------------------------------------------------------------- *)
 (* retained values *)
 
 Lemma copies_all : forall k, copies k = true.
 Proof. destruct k; reflexivity. Qed.
+(* from here on the proofs use [copies] only through [copies_all] *)
+Global Opaque copies.
 
 Lemma deref_owned s1 s2 v : owned v = true -> deref s1 v = deref s2 v.
 Proof. destruct v; simpl; [reflexivity|discriminate]. Qed.
 
-Definition src_ok (x : src) : bool := match x with FrameSl _ _ => true | Held v => owned v end.
+Definition src_ok (x : src) : bool := match x with Held v => owned v | _ => true end.
 
-Lemma src_val_indep s1 s2 frame x : src_ok x = true -> src_val s1 frame x = src_val s2 frame x.
-Proof. destruct x; simpl; auto. apply deref_owned. Qed.
+(* two call contexts for the same frame *)
+Definition cxeq (cx1 cx2 : ctx) : Prop := cx_frame cx1 = cx_frame cx2.
 
-Lemma retain_owned k s b frame x : owned (retain k s b frame x) = true.
+Lemma rd_owned cx1 cx2 v : owned v = true -> rd cx1 v = rd cx2 v.
+Proof. apply deref_owned. Qed.
+
+Lemma src_val_indep cx1 cx2 x : cxeq cx1 cx2 -> src_ok x = true -> src_val cx1 x = src_val cx2 x.
+Proof. intros E H. destruct x; simpl; auto. - rewrite E. reflexivity. - apply rd_owned. exact H. Qed.
+
+Lemma retain_owned k cx x : owned (retain k cx x) = true.
 Proof. unfold retain. rewrite copies_all. reflexivity. Qed.
 
-Lemma retain_indep k s1 s2 b1 b2 frame x :
-  src_ok x = true -> retain k s1 b1 frame x = retain k s2 b2 frame x.
-Proof. intros H. unfold retain. rewrite copies_all. f_equal. apply src_val_indep; auto. Qed.
+Lemma retain_indep k cx1 cx2 x :
+  cxeq cx1 cx2 -> src_ok x = true -> retain k cx1 x = retain k cx2 x.
+Proof. intros E H. unfold retain. rewrite copies_all. f_equal. apply src_val_indep; auto. Qed.
+
+Lemma lval_indep cx1 cx2 l : cxeq cx1 cx2 -> lval cx1 l = lval cx2 l.
+Proof. intros E. unfold lval. rewrite E. reflexivity. Qed.
+
+Lemma join_labels_indep cx1 cx2 ls : cxeq cx1 cx2 -> join_labels cx1 ls = join_labels cx2 ls.
+Proof.
+  intros E. induction ls as [|l r IH]; simpl; auto.
+  rewrite (lval_indep cx1 cx2 l E). destruct r; auto. rewrite IH. reflexivity.
+Qed.
+
+Lemma nm_empty_ok : nm_ok nm_empty = true.
+Proof. reflexivity. Qed.
+Lemma names0_ok : forallb nm_ok names0 = true.
+Proof. reflexivity. Qed.
+Lemma get_name_ok i l : forallb nm_ok l = true -> nm_ok (get_name i l) = true.
+Proof. intros H. unfold get_name. apply forallb_nth; auto. Qed.
 
 (* ---------------------------------------------------------------- *)
-(* state invariants *)
+(* state invariant: components *)
 
-Lemma no_ref_split st :
-  no_ref st = true <-> forallb host_ok (st_hosts st) = true /\ forallb mac_ok (st_macs st) = true.
-Proof. unfold no_ref. apply andb_true_iff. Qed.
+Lemma no_ref_iff st :
+  no_ref st = true <->
+  forallb host_ok (st_hosts st) = true /\ forallb mac_ok (st_macs st) = true /\ forallb lease_ok (st_leases st) = true /\
+  forallb router_ok (st_routers st) = true /\ forallb dns_ok (st_dns st) = true /\ forallb mcache_ok (st_mcache st) = true.
+Proof.
+  unfold no_ref. rewrite !andb_true_iff. tauto.
+Qed.
 
-Section Indep.
-Variables (s1 s2 : store) (b1 b2 : nat).
+Ltac nr_destruct H :=
+  let Hh := fresh "Hh" in let Hm := fresh "Hm" in let Hl := fresh "Hl" in
+  let Hr := fresh "Hr" in let Hd := fresh "Hd" in let Hc := fresh "Hc" in
+  apply no_ref_iff in H; destruct H as (Hh & Hm & Hl & Hr & Hd & Hc).
+Ltac nr_split := apply no_ref_iff; cbn [st_hosts st_macs st_leases st_routers st_dns st_mcache
+                                        set_hosts set_macs set_next set_leases set_routers set_dns set_mcache];
+                 repeat split.
+
+Lemma set_hosts_no_ref st x : no_ref st = true -> forallb host_ok x = true -> no_ref (set_hosts st x) = true.
+Proof. intros H Hx. nr_destruct H. nr_split; auto. Qed.
+Lemma set_macs_no_ref st x : no_ref st = true -> forallb mac_ok x = true -> no_ref (set_macs st x) = true.
+Proof. intros H Hx. nr_destruct H. nr_split; auto. Qed.
+Lemma set_next_no_ref st x : no_ref st = true -> no_ref (set_next st x) = true.
+Proof. intros H. nr_destruct H. nr_split; auto. Qed.
+Lemma set_leases_no_ref st x : no_ref st = true -> forallb lease_ok x = true -> no_ref (set_leases st x) = true.
+Proof. intros H Hx. nr_destruct H. nr_split; auto. Qed.
+Lemma set_routers_no_ref st x : no_ref st = true -> forallb router_ok x = true -> no_ref (set_routers st x) = true.
+Proof. intros H Hx. nr_destruct H. nr_split; auto. Qed.
+Lemma set_dns_no_ref st x : no_ref st = true -> forallb dns_ok x = true -> no_ref (set_dns st x) = true.
+Proof. intros H Hx. nr_destruct H. nr_split; auto. Qed.
+Lemma set_mcache_no_ref st x : no_ref st = true -> forallb mcache_ok x = true -> no_ref (set_mcache st x) = true.
+Proof. intros H Hx. nr_destruct H. nr_split; auto. Qed.
+
+Lemma nr_hosts st : no_ref st = true -> forallb host_ok (st_hosts st) = true.
+Proof. intros H. nr_destruct H. auto. Qed.
+Lemma nr_macs st : no_ref st = true -> forallb mac_ok (st_macs st) = true.
+Proof. intros H. nr_destruct H. auto. Qed.
+Lemma nr_leases st : no_ref st = true -> forallb lease_ok (st_leases st) = true.
+Proof. intros H. nr_destruct H. auto. Qed.
+
+Lemma find_host_ok key st h : no_ref st = true -> find_host key (st_hosts st) = Some h -> host_ok h = true.
+Proof. intros H F. eapply find_some_forallb; [apply nr_hosts; eauto | exact F]. Qed.
+Lemma me_by_id_ok id st e : no_ref st = true -> me_by_id id (st_macs st) = Some e -> mac_ok e = true.
+Proof. intros H F. eapply find_some_forallb; [apply nr_macs; eauto | exact F]. Qed.
+Lemma find_lease_ok key st l : no_ref st = true -> find_lease key (st_leases st) = Some l -> lease_ok l = true.
+Proof. intros H F. eapply find_some_forallb; [apply nr_leases; eauto | exact F]. Qed.
+
+(* updates that keep the retained fields *)
+Definition me_same (f : macentry -> macentry) : Prop := forall e, mac_ok e = true -> mac_ok (f e) = true.
+Definition h_same (f : host -> host) : Prop := forall h, host_ok h = true -> host_ok (f h) = true.
+
+Lemma upd_me_no_ref id f st : me_same f -> no_ref st = true -> no_ref (upd_me id f st) = true.
+Proof.
+  intros Hf H. unfold upd_me. apply set_macs_no_ref; auto.
+  apply forallb_map_id; [|apply nr_macs; auto]. intros e He. destruct (Nat.eqb _ _); auto.
+Qed.
+Lemma upd_host_no_ref key f st : h_same f -> no_ref st = true -> no_ref (upd_host key f st) = true.
+Proof.
+  intros Hf H. unfold upd_host. apply set_hosts_no_ref; auto.
+  apply forallb_map_id; [|apply nr_hosts; auto]. intros e He. destruct (beqb _ _); auto.
+Qed.
+
+Lemma me_same_hosts x : me_same (fun e => me_with_hosts e (x e)). Proof. intros e H; exact H. Qed.
+Lemma me_same_online x : me_same (fun e => me_with_online e x). Proof. intros e H; exact H. Qed.
+Lemma me_same_ip4 x : me_same (fun e => me_with_ip4 e x). Proof. intros e H; exact H. Qed.
+Lemma me_same_offer x : me_same (fun e => me_with_offer e x). Proof. intros e H; exact H. Qed.
+Lemma h_same_online x : h_same (fun h => h_with_online h x). Proof. intros e H; exact H. Qed.
+Lemma h_same_dirty x : h_same (fun h => h_with_dirty h x). Proof. intros e H; exact H. Qed.
+Lemma h_same_od x y : h_same (fun h => h_with_dirty (h_with_online h x) y). Proof. intros e H; exact H. Qed.
+
+(* ---------------------------------------------------------------- *)
+(* session: MAC table, host table *)
+
+Section Session.
+Variables cx1 cx2 : ctx.
+Hypothesis E : cxeq cx1 cx2.
 
 Lemma find_mac_indep mac ms :
-  forallb mac_ok ms = true -> find_mac s1 mac ms = find_mac s2 mac ms.
+  forallb mac_ok ms = true -> find_mac cx1 mac ms = find_mac cx2 mac ms.
 Proof.
   intros H. unfold find_mac. apply find_ext_forallb with (p := mac_ok); auto.
-  intros e He. rewrite (deref_owned s1 s2); auto.
+  intros e He. unfold mac_ok in He. split_ok. rewrite (rd_owned cx1 cx2); auto.
 Qed.
 
-Lemma mac_find_or_create_indep frame x st :
+Lemma mac_find_or_create_ok x st :
   no_ref st = true -> src_ok x = true ->
-  mac_find_or_create s1 b1 frame x st = mac_find_or_create s2 b2 frame x st.
+  mac_find_or_create cx1 x st = mac_find_or_create cx2 x st /\
+  no_ref (fst (mac_find_or_create cx1 x st)) = true /\ mac_ok (snd (mac_find_or_create cx1 x st)) = true.
 Proof.
-  intros H Hx. apply no_ref_split in H as [Hh Hm]. unfold mac_find_or_create.
-  rewrite (src_val_indep s1 s2) by auto. rewrite find_mac_indep by auto.
-  destruct (find_mac s2 _ _); auto.
-  rewrite (retain_indep _ s1 s2 b1 b2) by auto. reflexivity.
+  intros H Hx. pose proof (nr_macs _ H) as Hm. unfold mac_find_or_create.
+  rewrite (src_val_indep cx1 cx2) by auto. rewrite find_mac_indep by auto.
+  destruct (find_mac cx2 _ _) as [e|] eqn:He; cbn [fst snd].
+  - split; [reflexivity|split]; [exact H|]. eapply find_some_forallb; eauto.
+  - rewrite (retain_indep _ cx1 cx2) by auto. split; [reflexivity|split].
+    + apply set_next_no_ref. apply set_macs_no_ref; [exact H|]. apply forallb_snoc; [exact Hm|].
+      unfold mac_ok; cbn [me_mac me_names]. rewrite retain_owned. reflexivity.
+    + unfold mac_ok; cbn [me_mac me_names]. rewrite retain_owned. reflexivity.
 Qed.
 
-Lemma delete_host_indep key st :
-  no_ref st = true -> delete_host s1 key st = delete_host s2 key st.
-Proof.
-  intros H. apply no_ref_split in H as [Hh Hm]. unfold delete_host.
-  destruct (find_host key (st_hosts st)) as [h|]; auto.
-  set (macs1 := map _ (st_macs st)).
-  assert (Hm1 : forallb mac_ok macs1 = true).
-  { apply forallb_map_id; auto. intros e He. destruct (Nat.eqb _ _); auto. }
-  destruct (me_by_id (h_me h) macs1) as [e|] eqn:He; auto.
-  destruct (me_hosts e); auto.
-  f_equal. apply remove_first_ext_forallb with (p := mac_ok); auto.
-  intros e' He'. unfold me_by_id in He.
-  pose proof (find_some_forallb mac_ok _ _ _ Hm1 He) as Hok.
-  rewrite (deref_owned s1 s2 (me_mac e')) by exact He'.
-  rewrite (deref_owned s1 s2 (me_mac e)) by exact Hok. reflexivity.
-Qed.
-
-End Indep.
-
-Lemma mac_find_or_create_no_ref s b frame x st :
+Lemma delete_host_ok key st :
   no_ref st = true ->
-  no_ref (fst (mac_find_or_create s b frame x st)) = true /\
-  mac_ok (snd (mac_find_or_create s b frame x st)) = true.
+  delete_host cx1 key st = delete_host cx2 key st /\ no_ref (delete_host cx1 key st) = true.
 Proof.
-  intros H. pose proof H as H0. apply no_ref_split in H as [Hh Hm]. unfold mac_find_or_create.
-  destruct (find_mac s _ _) as [e|] eqn:He; cbn [fst snd].
-  - split; [exact H0|]. unfold find_mac in He. apply (find_some_forallb mac_ok _ _ _ Hm He).
-  - split.
-    + apply no_ref_split; cbn [st_hosts st_macs]. split; [exact Hh|]. apply forallb_snoc; [exact Hm | exact (retain_owned _ _ _ _ _)].
-    + exact (retain_owned _ _ _ _ _).
-Qed.
-
-Lemma delete_host_no_ref s key st : no_ref st = true -> no_ref (delete_host s key st) = true.
-Proof.
-  intros H. pose proof H as H0. apply no_ref_split in H as [Hh Hm]. unfold delete_host.
+  intros H. pose proof (nr_macs _ H) as Hm. pose proof (nr_hosts _ H) as Hh. unfold delete_host.
   destruct (find_host key (st_hosts st)) as [h|]; auto.
   set (macs1 := map _ (st_macs st)).
   assert (Hm1 : forallb mac_ok macs1 = true).
   { apply forallb_map_id; auto. intros e He. destruct (Nat.eqb _ _); auto. }
-  apply no_ref_split; simpl. split.
-  - apply forallb_remove_first; auto.
-  - destruct (me_by_id (h_me h) macs1) as [e|]; auto.
-    destruct (me_hosts e); auto. apply forallb_remove_first; auto.
+  assert (Hh1 : forallb host_ok (remove_first (fun h' => beqb (h_key h') key) (st_hosts st)) = true)
+    by (apply forallb_remove_first; auto).
+  destruct (me_by_id (h_me h) macs1) as [e|] eqn:He.
+  - pose proof (find_some_forallb mac_ok _ _ _ Hm1 He) as Hok.
+    destruct (is_nil (me_hosts e)).
+    + split.
+      * f_equal. apply remove_first_ext_forallb with (p := mac_ok); auto.
+        intros e' He'. unfold mac_ok in He', Hok. split_ok.
+        rewrite (rd_owned cx1 cx2 (me_mac e')), (rd_owned cx1 cx2 (me_mac e)); auto.
+      * apply set_macs_no_ref; [apply set_hosts_no_ref; auto|]. apply forallb_remove_first; auto.
+    + split; auto. apply set_macs_no_ref; [apply set_hosts_no_ref; auto|]; auto.
+  - split; auto. apply set_macs_no_ref; [apply set_hosts_no_ref; auto|]; auto.
 Qed.
 
-(* the tail of findOrCreateHostWithLock: create the host and link it *)
-Definition fresh_host (s : store) (buf : nat) (frame : bytes) (xmac xip : src) (st0 : state) : state :=
-  let key := src_val s frame xip in
-  let '(st1, e) := mac_find_or_create s buf frame xmac st0 in
-  let h := {| h_ip := retain RP_host_ip s buf frame xip; h_key := key; h_me := me_id e; h_mac := me_mac e |} in
-  {| st_hosts := st_hosts st1 ++ [h];
-     st_macs := map (fun e' => if Nat.eqb (me_id e') (me_id e)
-                               then {| me_id := me_id e'; me_mac := me_mac e'; me_hosts := me_hosts e' ++ [key] |}
-                               else e') (st_macs st1);
-     st_next := st_next st1 |}.
-
-Lemma find_or_create_host_unfold s buf frame xmac xip st :
-  find_or_create_host s buf frame xmac xip st =
-  let key := src_val s frame xip in
-  let mac := src_val s frame xmac in
-  match find_host key (st_hosts st) with
-  | Some h =>
-      match me_by_id (h_me h) (st_macs st) with
-      | Some e => if beqb (deref s (me_mac e)) mac then st
-                  else fresh_host s buf frame xmac xip (delete_host s key st)
-      | None => fresh_host s buf frame xmac xip (delete_host s key st)
-      end
-  | None => fresh_host s buf frame xmac xip st
-  end.
-Proof. reflexivity. Qed.
-
-Lemma fresh_host_indep s1 s2 b1 b2 frame xmac xip st :
+Lemma fresh_host_ok xmac xip st :
   no_ref st = true -> src_ok xmac = true -> src_ok xip = true ->
-  fresh_host s1 b1 frame xmac xip st = fresh_host s2 b2 frame xmac xip st.
+  fresh_host cx1 xmac xip st = fresh_host cx2 xmac xip st /\ no_ref (fresh_host cx1 xmac xip st) = true.
 Proof.
   intros H Hm Hi. unfold fresh_host.
-  rewrite (src_val_indep s1 s2 frame xip) by auto.
-  rewrite (mac_find_or_create_indep s1 s2 b1 b2) by auto.
-  destruct (mac_find_or_create s2 b2 frame xmac st) as [st1 e].
-  rewrite (retain_indep _ s1 s2 b1 b2) by auto. reflexivity.
+  rewrite (src_val_indep cx1 cx2 xip) by auto.
+  destruct (mac_find_or_create_ok xmac st H Hm) as (Eq & Hn & Hok). rewrite Eq in *.
+  destruct (mac_find_or_create cx2 xmac st) as [st1 e]. cbn [fst snd] in *.
+  rewrite (retain_indep _ cx1 cx2) by auto. split; auto.
+  apply upd_me_no_ref; [apply me_same_hosts with (x := fun e' => me_hosts e' ++ [src_val cx2 xip])|].
+  apply set_hosts_no_ref; auto. apply forallb_snoc; [apply nr_hosts; auto|].
+  unfold host_ok; cbn [h_ip h_mac h_names]. rewrite retain_owned. unfold mac_ok in Hok. split_ok. and_ok; auto.
 Qed.
 
-Lemma fresh_host_no_ref s b frame xmac xip st :
-  no_ref st = true -> no_ref (fresh_host s b frame xmac xip st) = true.
-Proof.
-  intros H. unfold fresh_host.
-  destruct (mac_find_or_create_no_ref s b frame xmac st H) as [H1 He].
-  destruct (mac_find_or_create s b frame xmac st) as [st1 e]. cbn [fst snd] in *.
-  apply no_ref_split in H1 as [Hh Hm]. apply no_ref_split; cbn [st_hosts st_macs]. split.
-  - apply forallb_snoc; [exact Hh|]. unfold host_ok; cbn [h_ip h_mac]. rewrite retain_owned. exact He.
-  - apply forallb_map_id; auto. intros e' He'. destruct (Nat.eqb _ _); auto.
-Qed.
-
-Lemma find_or_create_host_indep s1 s2 b1 b2 frame xmac xip st :
+Lemma find_or_create_host_ok xmac xip st :
   no_ref st = true -> src_ok xmac = true -> src_ok xip = true ->
-  find_or_create_host s1 b1 frame xmac xip st = find_or_create_host s2 b2 frame xmac xip st.
+  find_or_create_host cx1 xmac xip st = find_or_create_host cx2 xmac xip st /\
+  no_ref (find_or_create_host cx1 xmac xip st) = true.
 Proof.
-  intros H Hm Hi. rewrite !find_or_create_host_unfold. cbv zeta.
-  rewrite (src_val_indep s1 s2 frame xip) by auto.
-  rewrite (src_val_indep s1 s2 frame xmac) by auto.
-  pose proof (delete_host_no_ref s2 (src_val s2 frame xip) st H) as Hd.
+  intros H Hm Hi. unfold find_or_create_host.
+  rewrite (src_val_indep cx1 cx2 xip) by auto.
+  rewrite (src_val_indep cx1 cx2 xmac) by auto.
+  destruct (delete_host_ok (src_val cx2 xip) st H) as [Ed Hd]. rewrite Ed in *.
   destruct (find_host _ _) as [h|].
   - destruct (me_by_id _ _) as [e|] eqn:He.
-    + apply no_ref_split in H as [Hh Hms].
-      pose proof (find_some_forallb mac_ok _ _ _ Hms He) as Hok.
-      rewrite (deref_owned s1 s2 (me_mac e)) by exact Hok.
-      destruct (beqb _ _); auto.
-      rewrite (delete_host_indep s1 s2) by (apply no_ref_split; auto).
-      apply fresh_host_indep; auto.
-    + rewrite (delete_host_indep s1 s2) by auto. apply fresh_host_indep; auto.
-  - apply fresh_host_indep; auto.
+    + pose proof (me_by_id_ok _ _ _ H He) as Hok. unfold mac_ok in Hok. split_ok.
+      rewrite (rd_owned cx1 cx2 (me_mac e)) by auto.
+      destruct (beqb _ _); auto. apply fresh_host_ok; auto.
+    + apply fresh_host_ok; auto.
+  - apply fresh_host_ok; auto.
 Qed.
 
-Lemma find_or_create_host_no_ref s b frame xmac xip st :
-  no_ref st = true -> no_ref (find_or_create_host s b frame xmac xip st) = true.
+Lemma online_transition_no_ref key st : no_ref st = true -> no_ref (online_transition key st) = true.
 Proof.
-  intros H. rewrite find_or_create_host_unfold. cbv zeta.
-  pose proof (delete_host_no_ref s (src_val s frame xip) st H) as Hd.
-  destruct (find_host _ _) as [h|].
-  - destruct (me_by_id _ _) as [e|].
-    + destruct (beqb _ _); auto. apply fresh_host_no_ref; auto.
-    + apply fresh_host_no_ref; auto.
-  - apply fresh_host_no_ref; auto.
+  intros H. unfold online_transition.
+  destruct (find_host key (st_hosts st)) as [h|]; auto.
+  destruct (h_online h); auto.
+  set (st1 := upd_me _ _ st). assert (H1 : no_ref st1 = true) by (apply upd_me_no_ref; auto using me_same_online).
+  set (st2 := upd_host _ _ st1). assert (H2 : no_ref st2 = true) by (apply upd_host_no_ref; auto using h_same_od).
+  destruct (Nat.eqb _ _); auto.
+  destruct (me_by_id _ _) as [e|]; auto.
+  destruct (beqb _ _); auto.
+  set (st3 := upd_me _ _ st2). assert (H3 : no_ref st3 = true) by (apply upd_me_no_ref; auto using me_same_ip4).
+  apply set_hosts_no_ref; auto. apply forallb_map_id; [|apply nr_hosts; auto].
+  intros v Hv. destruct (_ && _); auto.
 Qed.
 
-Lemma parse_hosts_indep c s1 s2 b1 b2 frame st :
-  no_ref st = true -> parse_hosts c s1 b1 frame st = parse_hosts c s2 b2 frame st.
+Lemma merge1_ok old new :
+  owned old = true -> owned new = true ->
+  merge1 cx1 old new = merge1 cx2 old new /\ owned (fst (merge1 cx1 old new)) = true.
 Proof.
-  intros H. unfold parse_hosts.
-  repeat match goal with |- context [if ?b then _ else _] => destruct b end; auto;
-    apply find_or_create_host_indep; auto.
+  intros Ho Hn. unfold merge1. rewrite (rd_owned cx1 cx2 new), (rd_owned cx1 cx2 old) by auto.
+  destruct (_ && _); auto.
 Qed.
 
-Lemma parse_hosts_no_ref c s b frame st :
-  no_ref st = true -> no_ref (parse_hosts c s b frame st) = true.
+Lemma merge_ok e n :
+  nm_ok e = true -> nm_ok n = true ->
+  merge cx1 e n = merge cx2 e n /\ nm_ok (fst (merge cx1 e n)) = true.
 Proof.
-  intros H. unfold parse_hosts.
-  repeat match goal with |- context [if ?b then _ else _] => destruct b end; auto;
-    apply find_or_create_host_no_ref; auto.
+  intros He Hn. unfold nm_ok in He, Hn. split_ok. unfold merge.
+  destruct (merge1_ok (n_name e) (n_name n)) as [E1 O1]; auto.
+  destruct (merge1_ok (n_model e) (n_model n)) as [E2 O2]; auto.
+  destruct (merge1_ok (n_os e) (n_os n)) as [E3 O3]; auto.
+  destruct (merge1_ok (n_manuf e) (n_manuf n)) as [E4 O4]; auto.
+  rewrite E1, E2, E3, E4 in *.
+  destruct (merge1 cx2 (n_name e) (n_name n)), (merge1 cx2 (n_model e) (n_model n)),
+           (merge1 cx2 (n_os e) (n_os n)), (merge1 cx2 (n_manuf e) (n_manuf n)). cbn [fst] in *.
+  split; auto. unfold nm_ok; cbn [n_name n_model n_manuf n_os]. and_ok; auto.
 Qed.
 
-Lemma init_state_no_ref c : no_ref (init_state c) = true.
-Proof. unfold init_state. repeat apply find_or_create_host_no_ref. reflexivity. Qed.
+Lemma h_same_names x : forallb nm_ok x = true -> h_same (fun h => h_with_names h x).
+Proof. intros Hx h H. unfold host_ok in *. cbn [h_with_names h_ip h_mac h_names]. split_ok. and_ok; auto. Qed.
+Lemma me_same_names x : forallb nm_ok x = true -> me_same (fun e => me_with_names e x).
+Proof. intros Hx e H. unfold mac_ok in *. cbn [me_with_names me_mac me_names]. split_ok. and_ok; auto. Qed.
+
+Lemma host_names_ok h : host_ok h = true -> forallb nm_ok (h_names h) = true.
+Proof. unfold host_ok. intros H. split_ok. auto. Qed.
+Lemma mac_names_ok e : mac_ok e = true -> forallb nm_ok (me_names e) = true.
+Proof. unfold mac_ok. intros H. split_ok. auto. Qed.
+
+Lemma update_name_ok i key n st :
+  no_ref st = true -> nm_ok n = true ->
+  update_name cx1 i key n st = update_name cx2 i key n st /\ no_ref (update_name cx1 i key n st) = true.
+Proof.
+  intros H Hn. unfold update_name.
+  destruct (find_host key (st_hosts st)) as [h|] eqn:Hf; auto.
+  pose proof (find_host_ok _ _ _ H Hf) as Hok.
+  destruct (merge_ok (get_name i (h_names h)) n) as [Em Om]; auto using get_name_ok, host_names_ok.
+  rewrite Em in *. destruct (merge cx2 (get_name i (h_names h)) n) as [hn notify]. cbn [fst] in *.
+  assert (H1 : no_ref (upd_host key (fun h' => h_with_names h' (set_nth i hn (h_names h'))) st) = true).
+  { unfold upd_host. apply set_hosts_no_ref; auto. apply forallb_map_id; [|apply nr_hosts; auto].
+    intros h' Hh'. destruct (beqb _ _); auto. apply h_same_names; auto.
+    apply forallb_set_nth; auto using host_names_ok. }
+  destruct notify; auto.
+  set (st2 := upd_host key (fun h' => h_with_dirty h' true) _).
+  assert (H2 : no_ref st2 = true) by (apply upd_host_no_ref; auto using h_same_dirty).
+  split.
+  - unfold upd_me. f_equal. apply map_ext_forallb with (p := mac_ok); [apply nr_macs; auto|].
+    intros e He. destruct (Nat.eqb _ _); auto.
+    destruct (merge_ok (get_name i (me_names e)) hn) as [Em2 _]; auto using get_name_ok, mac_names_ok.
+    rewrite Em2. reflexivity.
+  - unfold upd_me. apply set_macs_no_ref; auto. apply forallb_map_id; [|apply nr_macs; auto].
+    intros e He. destruct (Nat.eqb _ _); auto. apply me_same_names; auto.
+    apply forallb_set_nth; auto using mac_names_ok.
+    destruct (merge_ok (get_name i (me_names e)) hn) as [_ Om2]; auto using get_name_ok, mac_names_ok.
+Qed.
+
+Lemma dhcpv4_update_ok xmac ip n st :
+  no_ref st = true -> src_ok xmac = true -> nm_ok n = true ->
+  dhcpv4_update cx1 xmac ip n st = dhcpv4_update cx2 xmac ip n st /\ no_ref (dhcpv4_update cx1 xmac ip n st) = true.
+Proof.
+  intros H Hm Hn. unfold dhcpv4_update. destruct (ip_unspec_or_invalid ip); auto.
+  destruct (find_or_create_host_ok xmac (Fresh ip) st H Hm eq_refl) as [E1 N1]. rewrite E1 in *.
+  destruct (update_name_ok NM_DHCP ip n _ N1 Hn) as [E2 N2]. rewrite E2 in *.
+  destruct (find_host ip _) as [h|]; auto. split; auto.
+  apply online_transition_no_ref. apply upd_me_no_ref; auto using me_same_offer.
+Qed.
+
+Lemma set_dhcpv4_offer_ok xmac ip n st :
+  no_ref st = true -> src_ok xmac = true -> nm_ok n = true ->
+  set_dhcpv4_offer cx1 xmac ip n st = set_dhcpv4_offer cx2 xmac ip n st /\ no_ref (set_dhcpv4_offer cx1 xmac ip n st) = true.
+Proof.
+  intros H Hm Hn. unfold set_dhcpv4_offer.
+  destruct (mac_find_or_create_ok xmac st H Hm) as (Eq & N1 & Hok). rewrite Eq in *.
+  destruct (mac_find_or_create cx2 xmac st) as [st1 e]. cbn [fst snd] in *. split; auto.
+  unfold upd_me. apply set_macs_no_ref; auto. apply forallb_map_id; [|apply nr_macs; auto].
+  intros e' He'. destruct (Nat.eqb _ _); auto.
+  unfold mac_ok in *. cbn [me_with_names me_with_offer me_mac me_names]. split_ok. and_ok; auto.
+  apply forallb_set_nth; auto.
+Qed.
+
+End Session.
 
 (* ---------------------------------------------------------------- *)
-(* observations *)
+(* outputs: notifications, Parse *)
+
+Section Outputs.
+Variables cx1 cx2 : ctx.
+Hypothesis E : cxeq cx1 cx2.
+
+Lemma show_nm_indep n : nm_ok n = true -> show_nm cx1 n = show_nm cx2 n.
+Proof.
+  intros H. unfold nm_ok in H. split_ok. unfold show_nm.
+  rewrite (rd_owned cx1 cx2 (n_name n)), (rd_owned cx1 cx2 (n_model n)),
+          (rd_owned cx1 cx2 (n_manuf n)), (rd_owned cx1 cx2 (n_os n)); auto.
+Qed.
+
+Lemma show_names_indep l : forallb nm_ok l = true -> show_names cx1 l = show_names cx2 l.
+Proof.
+  intros H. unfold show_names. f_equal. apply map_ext_forallb with (p := nm_ok); auto.
+  intros n Hn. apply show_nm_indep; auto.
+Qed.
+
+Lemma notification_indep h e : host_ok h = true -> mac_ok e = true -> notification cx1 h e = notification cx2 h e.
+Proof.
+  intros Hh He. unfold notification.
+  pose proof (host_names_ok _ Hh) as Hn1. pose proof (mac_names_ok _ He) as Hn2.
+  unfold host_ok in Hh. unfold mac_ok in He. split_ok.
+  rewrite (rd_owned cx1 cx2 (h_ip h)), (rd_owned cx1 cx2 (h_mac h)) by auto.
+  rewrite (show_names_indep [_; _; _; _; _]); auto.
+  cbn [forallb]. rewrite !get_name_ok; auto.
+Qed.
+
+Lemma me_of_ok h st : no_ref st = true -> mac_ok (me_of h st) = true.
+Proof.
+  intros H. unfold me_of. destruct (me_by_id _ _) eqn:F; [eapply me_by_id_ok; eauto | reflexivity].
+Qed.
+
+Lemma make_offline_ok key st :
+  no_ref st = true ->
+  make_offline cx1 key st = make_offline cx2 key st /\ no_ref (fst (make_offline cx1 key st)) = true.
+Proof.
+  intros H. unfold make_offline.
+  destruct (find_host key (st_hosts st)) as [h0|]; auto.
+  set (st1 := upd_host key _ st).
+  assert (H1 : no_ref st1 = true) by (apply upd_host_no_ref; auto using h_same_od).
+  destruct (find_host key (st_hosts st1)) as [h|] eqn:F; auto.
+  rewrite (notification_indep h (me_of h st1)); eauto using find_host_ok, me_of_ok.
+  split; auto. cbn [fst]. apply upd_me_no_ref; auto using me_same_online.
+Qed.
+
+Lemma fold_make_offline_ok l : forall st outs,
+  no_ref st = true ->
+  fold_left (fun acc k => let '(s', o) := make_offline cx1 k (fst acc) in (s', snd acc ++ o)) l (st, outs) =
+  fold_left (fun acc k => let '(s', o) := make_offline cx2 k (fst acc) in (s', snd acc ++ o)) l (st, outs) /\
+  no_ref (fst (fold_left (fun acc k => let '(s', o) := make_offline cx1 k (fst acc) in (s', snd acc ++ o)) l (st, outs))) = true.
+Proof.
+  induction l as [|k r IH]; intros st outs H; cbn [fold_left fst snd]; auto.
+  destruct (make_offline_ok k st H) as [Em Nm]. rewrite Em in *.
+  destruct (make_offline cx2 k st) as [s' o]. cbn [fst] in Nm. apply IH; auto.
+Qed.
+
+Lemma notify_host_ok key trans st :
+  no_ref st = true ->
+  notify_host cx1 key trans st = notify_host cx2 key trans st /\ no_ref (fst (notify_host cx1 key trans st)) = true.
+Proof.
+  intros H. unfold notify_host.
+  destruct (find_host key (st_hosts st)) as [h|]; auto.
+  destruct (negb (h_dirty h)); auto.
+  match goal with |- context [fold_left _ ?l (st, [])] => set (offl := l) end.
+  destruct (fold_make_offline_ok offl st [] H) as [Ef Nf]. rewrite Ef. rewrite Ef in Nf. clear Ef.
+  match goal with |- context [fold_left ?f offl (st, [])] => destruct (fold_left f offl (st, [])) as [st1 outs] end.
+  cbn [fst] in Nf.
+  destruct (find_host key (st_hosts st1)) as [h1|] eqn:F; auto.
+  rewrite (notification_indep h1 (me_of h1 st1)); eauto using find_host_ok, me_of_ok.
+  split; auto. cbn [fst]. apply upd_host_no_ref; auto using h_same_dirty.
+Qed.
+
+Lemma parse_create_ok xmac xip st :
+  no_ref st = true -> src_ok xmac = true -> src_ok xip = true ->
+  parse_create cx1 xmac xip st = parse_create cx2 xmac xip st /\
+  no_ref (fst (fst (parse_create cx1 xmac xip st))) = true.
+Proof.
+  intros H Hm Hi. unfold parse_create.
+  rewrite (src_val_indep cx1 cx2 xip) by auto.
+  destruct (find_or_create_host_ok cx1 cx2 E xmac xip st H Hm Hi) as [E1 N1]. rewrite E1 in *.
+  destruct (find_host _ _) as [h|]; auto.
+  destruct (h_online h); auto. split; auto. cbn [fst]. apply online_transition_no_ref; auto.
+Qed.
+
+Lemma parse_hosts_ok c st :
+  no_ref st = true ->
+  parse_hosts c cx1 st = parse_hosts c cx2 st /\ no_ref (fst (fst (parse_hosts c cx1 st))) = true.
+Proof.
+  intros H. unfold parse_hosts. rewrite E.
+  repeat match goal with |- context [if ?b then _ else _] => destruct b end; auto;
+    apply parse_create_ok; auto.
+Qed.
+
+End Outputs.
+
+(* ---------------------------------------------------------------- *)
+(* observation of the tables *)
+
+Section Dump.
+Variables cx1 cx2 : ctx.
+
+Lemma show_rvs_indep l : forallb owned l = true -> show_rvs cx1 l = show_rvs cx2 l.
+Proof.
+  intros H. unfold show_rvs. f_equal. apply map_ext_forallb with (p := owned); auto.
+  intros v Hv. rewrite (rd_owned cx1 cx2 v); auto.
+Qed.
+
+Lemma show_host_indep h : host_ok h = true -> show_host cx1 h = show_host cx2 h.
+Proof.
+  intros H. pose proof (host_names_ok _ H). unfold host_ok in H. split_ok. unfold show_host.
+  rewrite (rd_owned cx1 cx2 (h_ip h)), (rd_owned cx1 cx2 (h_mac h)), (show_names_indep cx1 cx2) by auto. reflexivity.
+Qed.
+Lemma show_mac_indep e : mac_ok e = true -> show_mac cx1 e = show_mac cx2 e.
+Proof.
+  intros H. pose proof (mac_names_ok _ H). unfold mac_ok in H. split_ok. unfold show_mac.
+  rewrite (rd_owned cx1 cx2 (me_mac e)), (show_names_indep cx1 cx2) by auto. reflexivity.
+Qed.
+Lemma show_lease_indep l : lease_ok l = true -> show_lease cx1 l = show_lease cx2 l.
+Proof.
+  intros H. unfold lease_ok in H. split_ok. unfold show_lease.
+  rewrite (rd_owned cx1 cx2 (l_key l)), (rd_owned cx1 cx2 (l_cid l)), (rd_owned cx1 cx2 (l_mac l)),
+          (rd_owned cx1 cx2 (l_xid l)), (rd_owned cx1 cx2 (l_name l)) by auto. reflexivity.
+Qed.
+Lemma show_router_indep r : router_ok r = true -> show_router cx1 r = show_router cx2 r.
+Proof.
+  intros H. unfold router_ok in H. split_ok. unfold show_router.
+  rewrite (rd_owned cx1 cx2 (r_ip r)), (rd_owned cx1 cx2 (r_mac r)), (rd_owned cx1 cx2 (r_slla r)),
+          (rd_owned cx1 cx2 (r_route r)), (show_rvs_indep (r_prefixes r)), (show_rvs_indep (r_rdnss r)),
+          (show_rvs_indep (r_dnssl r)) by auto. reflexivity.
+Qed.
+Lemma show_rec_indep r : rec_ok r = true -> show_rec cx1 r = show_rec cx2 r.
+Proof.
+  intros H. unfold rec_ok in H. split_ok. unfold show_rec.
+  rewrite (rd_owned cx1 cx2 (dr_val r)), (rd_owned cx1 cx2 (dr_name r)) by auto. reflexivity.
+Qed.
+Lemma show_recs_indep l : forallb rec_ok l = true -> map (show_rec cx1) (rec_sorted l) = map (show_rec cx2) (rec_sorted l).
+Proof.
+  intros H. apply map_ext_forallb with (p := rec_ok); [apply forallb_sort_by; auto|]. apply show_rec_indep.
+Qed.
+Lemma show_dns_indep e : dns_ok e = true -> show_dns cx1 e = show_dns cx2 e.
+Proof.
+  intros H. unfold dns_ok in H. split_ok. unfold show_dns.
+  rewrite (rd_owned cx1 cx2 (d_name e)), (show_recs_indep (d_a e)), (show_recs_indep (d_aaaa e)),
+          (show_recs_indep (d_cname e)) by auto. reflexivity.
+Qed.
+
+End Dump.
 
 Lemma dump_indep s1 s2 st : no_ref st = true -> dump s1 st = dump s2 st.
 Proof.
-  intros H. apply no_ref_split in H as [Hh Hm]. unfold dump. f_equal. f_equal; [|f_equal].
-  - f_equal. apply map_ext_forallb with (p := host_ok).
-    + rewrite forallb_forall in *. intros x Hx. apply Hh.
-      unfold sort_by in Hx. revert Hx. generalize (st_hosts st). intros l.
-      induction l as [|y r IH]; simpl; auto.
-      intros Hin.
-      assert (Hins : forall z l', In x (insert_by (fun a b : host => bleb (h_key a) (h_key b)) z l') -> x = z \/ In x l').
-      { intros z l'. induction l' as [|w l' IHl]; simpl.
-        - intros [E|[]]; auto.
-        - destruct (bleb _ _); simpl.
-          + intros [E|[E|E]]; auto.
-          + intros [E|E]; auto. destruct (IHl E); auto. }
-      destruct (Hins _ _ Hin); subst; auto.
-    + intros h Hk. unfold host_ok in Hk. apply andb_true_iff in Hk as [Hi Hmac]. unfold show_host.
-      rewrite (deref_owned s1 s2 (h_ip h)), (deref_owned s1 s2 (h_mac h)); auto.
-  - f_equal. apply map_ext_forallb with (p := mac_ok); auto.
-    intros e He. unfold show_mac. rewrite (deref_owned s1 s2 (me_mac e)); auto.
+  intros H. nr_destruct H. unfold dump. cbv zeta.
+  rewrite (map_ext_forallb host_ok (show_host (nocx s1)) (show_host (nocx s2)))
+    by (auto using forallb_sort_by, show_host_indep).
+  rewrite (map_ext_forallb mac_ok (show_mac (nocx s1)) (show_mac (nocx s2))) by (auto using show_mac_indep).
+  rewrite (map_ext_forallb lease_ok (show_lease (nocx s1)) (show_lease (nocx s2)))
+    by (auto using forallb_sort_by, show_lease_indep).
+  rewrite (map_ext_forallb router_ok (show_router (nocx s1)) (show_router (nocx s2)))
+    by (auto using forallb_sort_by, show_router_indep).
+  rewrite (map_ext_forallb dns_ok (show_dns (nocx s1)) (show_dns (nocx s2)))
+    by (auto using forallb_sort_by, show_dns_indep).
+  reflexivity.
 Qed.
+
+(* ---------------------------------------------------------------- *)
+(* handlers *)
+
+Section Handlers.
+Variables cx1 cx2 : ctx.
+Hypothesis E : cxeq cx1 cx2.
+
+Lemma l_with_ok l xid name ip : lease_ok l = true -> owned xid = true -> owned name = true -> lease_ok (l_with l xid name ip) = true.
+Proof. intros H Hx Hn. unfold lease_ok in *. cbn [l_with l_key l_cid l_mac l_xid l_name]. split_ok. and_ok; auto. Qed.
+
+Lemma upd_lease_no_ref key f st :
+  (forall l, lease_ok l = true -> lease_ok (f l) = true) -> no_ref st = true -> no_ref (upd_lease key f st) = true.
+Proof.
+  intros Hf H. unfold upd_lease. apply set_leases_no_ref; auto.
+  apply forallb_map_id; [|apply nr_leases; auto]. intros l Hl. destruct (beqb _ _); auto.
+Qed.
+
+Lemma lease_find_or_create_ok xcid xmac xname st :
+  no_ref st = true -> src_ok xcid = true -> src_ok xmac = true -> src_ok xname = true ->
+  lease_find_or_create cx1 xcid xmac xname st = lease_find_or_create cx2 xcid xmac xname st /\
+  no_ref (lease_find_or_create cx1 xcid xmac xname st) = true.
+Proof.
+  intros H Hc Hm Hn. unfold lease_find_or_create.
+  rewrite (src_val_indep cx1 cx2 xcid), (src_val_indep cx1 cx2 xname), (src_val_indep cx1 cx2 xmac) by auto.
+  rewrite !(retain_indep _ cx1 cx2) by auto.
+  assert (Hcreate : forall st0, no_ref st0 = true ->
+    no_ref (set_leases st0 (remove_first (fun l' => beqb (l_kval l') (src_val cx2 xcid)) (st_leases st0) ++
+      [{| l_key := retain RP_lease_key cx2 xcid; l_kval := src_val cx2 xcid; l_cid := retain RP_lease_cid cx2 xcid;
+          l_mac := retain RP_lease_mac cx2 xmac; l_xid := Owned []; l_name := retain RP_lease_name cx2 xname; l_ip := [] |}])) = true).
+  { intros st0 H0. apply set_leases_no_ref; auto. apply forallb_snoc.
+    - apply forallb_remove_first. apply nr_leases; auto.
+    - unfold lease_ok; cbn [l_key l_cid l_mac l_xid l_name]. rewrite !retain_owned. reflexivity. }
+  destruct (find_lease _ _) as [l|] eqn:F; auto.
+  pose proof (find_lease_ok _ _ _ H F) as Hok. pose proof Hok as Hok'. unfold lease_ok in Hok'. split_ok.
+  rewrite (rd_owned cx1 cx2 (l_name l)), (rd_owned cx1 cx2 (l_mac l)) by auto.
+  match goal with |- context [if ?b then upd_lease ?k ?f st else st] =>
+    assert (Nupd : no_ref (if b then upd_lease k f st else st) = true) end.
+  { destruct (_ && _); auto. apply upd_lease_no_ref; auto. intros l' Hl'.
+    pose proof Hl' as Hl2. unfold lease_ok in Hl2. split_ok. apply l_with_ok; auto using retain_owned. }
+  destruct (beqb (rd cx2 (l_mac l)) _); auto.
+Qed.
+
+Lemma show_decl_indep typ cid mac xid ip :
+  owned cid = true -> owned mac = true -> owned xid = true ->
+  show_decl cx1 typ cid mac xid ip = show_decl cx2 typ cid mac xid ip.
+Proof.
+  intros H1 H2 H3. unfold show_decl.
+  rewrite (rd_owned cx1 cx2 cid), (rd_owned cx1 cx2 mac), (rd_owned cx1 cx2 xid) by auto. reflexivity.
+Qed.
+
+Lemma show_reply_indep typ yi : show_reply cx1 typ yi = show_reply cx2 typ yi.
+Proof. unfold show_reply. rewrite E. reflexivity. Qed.
+
+Lemma dm_name_entry_ok m : dm_name_entry cx1 m = dm_name_entry cx2 m /\ nm_ok (dm_name_entry cx1 m) = true.
+Proof.
+  unfold dm_name_entry. assert (Hs : src_ok (dm_name_src m) = true) by (unfold dm_name_src; destruct (dm_name m); reflexivity).
+  rewrite (retain_indep _ cx1 cx2) by auto. split; [reflexivity|].
+  unfold nm_ok; cbn [n_name n_model n_manuf n_os]. rewrite retain_owned. reflexivity.
+Qed.
+
+Lemma dm_cid_src_ok m : src_ok (dm_cid_src m) = true.
+Proof. unfold dm_cid_src. destruct (dm_cid m); reflexivity. Qed.
+Lemma dm_name_src_ok m : src_ok (dm_name_src m) = true.
+Proof. unfold dm_name_src. destruct (dm_name m); reflexivity. Qed.
+
+Lemma decl_frame_indep typ (xcid xmac : src) ip :
+  src_ok xcid = true -> src_ok xmac = true ->
+  show_decl cx1 typ (retain RP_decline_cid cx1 xcid) (retain RP_decline_mac cx1 xmac) (retain RP_decline_xid cx1 (FrameSl 46 4)) ip =
+  show_decl cx2 typ (retain RP_decline_cid cx2 xcid) (retain RP_decline_mac cx2 xmac) (retain RP_decline_xid cx2 (FrameSl 46 4)) ip.
+Proof.
+  intros Hc Hm. rewrite !(retain_indep _ cx1 cx2) by auto. apply show_decl_indep; apply retain_owned.
+Qed.
+
+Lemma dhcp_step0_ok m st :
+  no_ref st = true ->
+  dhcp_step0 cx1 m st = dhcp_step0 cx2 m st /\ no_ref (fst (dhcp_step0 cx1 m st)) = true.
+Proof.
+  intros H. unfold dhcp_step0. cbv zeta.
+  pose proof (dm_cid_src_ok m) as Hc. pose proof (dm_name_src_ok m) as Hn.
+  rewrite (src_val_indep cx1 cx2 (dm_cid_src m)) by auto.
+  assert (Hreq : match dm_reqip m with Some l => lval cx1 l | None => [] end =
+                 match dm_reqip m with Some l => lval cx2 l | None => [] end)
+    by (destruct (dm_reqip m); auto using lval_indep).
+  rewrite Hreq. clear Hreq.
+  destruct (dm_name_entry_ok m) as [En On]. rewrite En in *.
+  destruct (lease_find_or_create_ok (dm_cid_src m) (FrameSl 70 6) (dm_name_src m) st H Hc eq_refl Hn) as [E1 N1].
+  rewrite E1 in *.
+  set (st1 := lease_find_or_create cx2 (dm_cid_src m) (FrameSl 70 6) (dm_name_src m) st) in *.
+  set (key := src_val cx2 (dm_cid_src m)).
+  set (reqip := match dm_reqip m with Some l => lval cx2 l | None => [] end).
+  destruct (dm_type m =? 1).
+  { (* discover *)
+    destruct (dm_res m =? 2).
+    - rewrite (retain_indep _ cx1 cx2 (FrameSl 46 4)) by auto.
+      set (st2 := upd_lease key _ st1).
+      assert (N2 : no_ref st2 = true).
+      { apply upd_lease_no_ref; auto. intros l Hl. pose proof Hl as Hl2. unfold lease_ok in Hl2. split_ok.
+        apply l_with_ok; auto using retain_owned. }
+      destruct (find_lease key (st_leases st2)) as [l|] eqn:F; auto.
+      pose proof (find_lease_ok _ _ _ N2 F) as Hok. unfold lease_ok in Hok. split_ok.
+      destruct (set_dhcpv4_offer_ok cx1 cx2 E (Held (l_mac l)) (dm_yi m) (dm_name_entry cx2 m) st2) as [E3 N3]; auto.
+      rewrite E3 in *. rewrite show_reply_indep. split; [|exact N3].
+      f_equal. f_equal. destruct (ip_unspec_or_invalid reqip); auto.
+      f_equal. apply decl_frame_indep; auto.
+    - split; auto. cbn [fst]. apply set_leases_no_ref; auto. apply forallb_remove_first. apply nr_leases; auto. }
+  destruct (dm_type m =? 3).
+  { (* request *)
+    destruct (dm_cls m =? 0); auto.
+    match goal with |- context [if ?b then dhcpv4_update cx1 ?x ?ip ?n st1 else st1] =>
+      assert (H2 : (if b then dhcpv4_update cx1 x ip n st1 else st1) = (if b then dhcpv4_update cx2 x ip n st1 else st1) /\
+                   no_ref (if b then dhcpv4_update cx1 x ip n st1 else st1) = true) end.
+    { destruct (dm_cls m =? 3); auto. apply dhcpv4_update_ok; auto. }
+    destruct H2 as [E2 N2]. rewrite E2 in *.
+    match goal with |- context [find_lease key (st_leases ?s)] => set (st2 := s) in * end.
+    destruct (dm_res m =? 5).
+    - destruct (find_lease key (st_leases st2)) as [l|] eqn:F; auto.
+      pose proof (find_lease_ok _ _ _ N2 F) as Hok. unfold lease_ok in Hok. split_ok.
+      rewrite (retain_indep _ cx1 cx2 (dm_name_src m)) by auto.
+      set (st3 := upd_lease key _ st2).
+      assert (N3 : no_ref st3 = true).
+      { apply upd_lease_no_ref; auto. intros l' Hl'. pose proof Hl' as Hl2. unfold lease_ok in Hl2. split_ok.
+        apply l_with_ok; auto using retain_owned. }
+      destruct (dhcpv4_update_ok cx1 cx2 E (Held (l_mac l)) (dm_yi m) (dm_name_entry cx2 m) st3) as [E4 N4]; auto.
+      rewrite E4 in *. rewrite show_reply_indep. split; [reflexivity|exact N4].
+    - destruct (dm_res m =? 6); auto.
+      rewrite show_reply_indep. split; auto. f_equal. f_equal.
+      destruct (dm_cls m =? 3); auto. f_equal. apply decl_frame_indep; auto. }
+  destruct (dm_type m =? 2); auto.
+  split; auto. f_equal. f_equal. apply decl_frame_indep; auto.
+Qed.
+
+Lemma dhcp_step_ok m st :
+  no_ref st = true ->
+  dhcp_step cx1 m st = dhcp_step cx2 m st /\ no_ref (fst (dhcp_step cx1 m st)) = true.
+Proof.
+  intros H. unfold dhcp_step. destruct (dhcp_step0_ok m st H) as [E0 N0]. rewrite E0 in *.
+  destruct (dhcp_step0 cx2 m st) as [st1 outs]. cbn [fst] in *.
+  rewrite (src_val_indep cx1 cx2 (dm_cid_src m)) by (auto using dm_cid_src_ok).
+  split; [reflexivity|]. apply upd_lease_no_ref; [|exact N0]. intros l Hl. exact Hl.
+Qed.
+
+Lemma hunt_step_indep ip st : no_ref st = true -> hunt_step cx1 ip st = hunt_step cx2 ip st.
+Proof.
+  intros H. unfold hunt_step. destruct (find _ (st_leases st)) as [l|] eqn:F; auto.
+  pose proof (find_some_forallb lease_ok _ _ _ (nr_leases _ H) F) as Hok. unfold lease_ok in Hok. split_ok.
+  rewrite (retain_indep _ cx1 cx2 (Held (l_mac l))) by auto.
+  rewrite (show_decl_indep "7"); auto using retain_owned.
+Qed.
+
+Lemma ra_xmac_ok m : src_ok (ra_xmac m) = true.
+Proof. unfold ra_xmac. destruct (ra_slla m); reflexivity. Qed.
+
+Lemma ra_mk_ok m old :
+  match old with Some r => router_ok r = true | None => True end ->
+  ra_mk cx1 m old = ra_mk cx2 m old /\ router_ok (ra_mk cx2 m old) = true.
+Proof.
+  intros Ho. pose proof (ra_xmac_ok m) as Hx. split.
+  - unfold ra_mk. rewrite E.
+    rewrite !(retain_indep _ cx1 cx2 (FrameSl 22 16)), !(retain_indep _ cx1 cx2 (ra_xmac m)) by auto.
+    f_equal;
+      try (apply map_ext; intros p; cbv beta; rewrite ?(join_labels_indep cx1 cx2 _ E); apply retain_indep; auto; fail);
+      try (destruct (ra_slla m); auto; apply retain_indep; auto; fail);
+      try (destruct (ra_route m) as [[pl off]|]; auto; apply retain_indep; auto; fail).
+  - unfold ra_mk, router_ok. cbn [r_ip r_mac r_slla r_prefixes r_rdnss r_dnssl r_route]. and_ok.
+    + destruct old as [r|]; [unfold router_ok in Ho; split_ok; auto | apply retain_owned].
+    + destruct old as [r|]; [unfold router_ok in Ho; split_ok; auto | apply retain_owned].
+    + destruct (ra_slla m); [apply retain_owned | reflexivity].
+    + apply forallb_map_all. intros p. apply retain_owned.
+    + apply forallb_map_all. intros p. apply retain_owned.
+    + apply forallb_map_all. intros p. apply retain_owned.
+    + destruct (ra_route m) as [[pl off]|]; [apply retain_owned | reflexivity].
+Qed.
+
+Lemma ra_step_ok m fhost st :
+  no_ref st = true ->
+  ra_step cx1 m fhost st = ra_step cx2 m fhost st /\ no_ref (ra_step cx1 m fhost st) = true.
+Proof.
+  intros H. unfold ra_step. destruct fhost as [k|]; auto. cbv zeta. rewrite E.
+  assert (Hr : forallb router_ok (st_routers st) = true) by (nr_destruct H; auto).
+  destruct (find _ (st_routers st)) as [r|].
+  - assert (Em : map (fun r' => if beqb (r_key r') (sub (cx_frame cx2) 22 16) then ra_mk cx1 m (Some r') else r') (st_routers st) =
+                 map (fun r' => if beqb (r_key r') (sub (cx_frame cx2) 22 16) then ra_mk cx2 m (Some r') else r') (st_routers st)).
+    { apply map_ext_forallb with (p := router_ok); auto. intros r' Hr'. destruct (beqb _ _); auto.
+      destruct (ra_mk_ok m (Some r') Hr'); auto. }
+    rewrite Em. split; auto. apply set_routers_no_ref; auto.
+    apply forallb_map_id; auto. intros r' Hr'. destruct (beqb _ _); auto. destruct (ra_mk_ok m (Some r') Hr'); auto.
+  - destruct (ra_mk_ok m None I) as [Em Om]. rewrite Em. split; auto.
+    apply set_routers_no_ref; auto. apply forallb_snoc; auto.
+Qed.
+
+Lemma add_rec_ok r l : rec_ok r = true -> forallb rec_ok l = true -> forallb rec_ok (fst (add_rec r l)) = true.
+Proof. intros Hr Hl. unfold add_rec. destruct (existsb _ _); cbn [fst]; auto. apply forallb_snoc; auto. Qed.
+
+Lemma dns_rr_ok acc rr :
+  dns_ok (fst acc) = true -> dns_rr cx1 acc rr = dns_rr cx2 acc rr /\ dns_ok (fst (dns_rr cx1 acc rr)) = true.
+Proof.
+  intros H. pose proof H as H0. unfold dns_ok in H0. split_ok. unfold dns_rr. rewrite E.
+  destruct rr as [name off|name off|name cname];
+    rewrite ?(join_labels_indep cx1 cx2) by auto; rewrite !(retain_indep _ cx1 cx2) by auto.
+  - match goal with |- context [add_rec ?r ?l] => pose proof (add_rec_ok r l) as Ha; destruct (add_rec r l) as [l' u] end.
+    split; auto. cbn [fst] in *. unfold dns_ok; cbn [d_name d_a d_aaaa d_cname]. and_ok; auto.
+    all: try (apply Ha; auto; unfold rec_ok; cbn [dr_name dr_val]; rewrite !retain_owned; reflexivity).
+  - match goal with |- context [add_rec ?r ?l] => pose proof (add_rec_ok r l) as Ha; destruct (add_rec r l) as [l' u] end.
+    split; auto. cbn [fst] in *. unfold dns_ok; cbn [d_name d_a d_aaaa d_cname]. and_ok; auto.
+    all: try (apply Ha; auto; unfold rec_ok; cbn [dr_name dr_val]; rewrite !retain_owned; reflexivity).
+  - match goal with |- context [add_rec ?r ?l] => pose proof (add_rec_ok r l) as Ha; destruct (add_rec r l) as [l' u] end.
+    split; auto. cbn [fst] in *. unfold dns_ok; cbn [d_name d_a d_aaaa d_cname]. and_ok; auto.
+    all: try (apply Ha; auto; unfold rec_ok; cbn [dr_name dr_val]; rewrite !retain_owned; reflexivity).
+Qed.
+
+Lemma fold_dns_rr_ok rrs : forall acc,
+  dns_ok (fst acc) = true ->
+  fold_left (dns_rr cx1) rrs acc = fold_left (dns_rr cx2) rrs acc /\ dns_ok (fst (fold_left (dns_rr cx1) rrs acc)) = true.
+Proof.
+  induction rrs as [|rr r IH]; intros acc H; cbn [fold_left]; auto.
+  destruct (dns_rr_ok acc rr H) as [E1 O1]. rewrite E1 in *. apply IH; auto.
+Qed.
+
+Lemma dns_step_ok m st :
+  no_ref st = true -> dns_step cx1 m st = dns_step cx2 m st /\ no_ref (dns_step cx1 m st) = true.
+Proof.
+  intros H. unfold dns_step. cbv zeta. rewrite (join_labels_indep cx1 cx2) by auto.
+  rewrite (retain_indep _ cx1 cx2) by auto.
+  assert (Hd : forallb dns_ok (st_dns st) = true) by (nr_destruct H; auto).
+  match goal with |- context [fold_left (dns_rr cx1) _ (?e, false)] => set (e0 := e) end.
+  assert (O0 : dns_ok e0 = true).
+  { unfold e0. destruct (find _ (st_dns st)) eqn:F; [eapply find_some_forallb; eauto|].
+    unfold dns_ok; cbn [d_name d_a d_aaaa d_cname]. rewrite retain_owned. reflexivity. }
+  destruct (fold_dns_rr_ok (dq_rrs m) (e0, false) O0) as [Ef Of]. rewrite Ef in *.
+  destruct (fold_left (dns_rr cx2) (dq_rrs m) (e0, false)) as [e1 updated]. cbn [fst] in *.
+  destruct updated; auto. split; auto. apply set_dns_no_ref; auto. apply forallb_snoc; auto.
+  apply forallb_remove_first; auto.
+Qed.
+
+Lemma fold_update_name_ok slot (ents : list (bytes * nameent * rv)) : forall st,
+  no_ref st = true -> forallb (fun x => nm_ok (snd (fst x))) ents = true ->
+  fold_left (fun s x => update_name cx1 slot (fst (fst x)) (snd (fst x)) s) ents st =
+  fold_left (fun s x => update_name cx2 slot (fst (fst x)) (snd (fst x)) s) ents st /\
+  no_ref (fold_left (fun s x => update_name cx1 slot (fst (fst x)) (snd (fst x)) s) ents st) = true.
+Proof.
+  induction ents as [|x r IH]; intros st H Ho; cbn [fold_left]; auto.
+  cbn [forallb] in Ho. split_ok.
+  destruct (update_name_ok cx1 cx2 slot (fst (fst x)) (snd (fst x)) st) as [E1 N1]; auto.
+  rewrite E1 in *. apply IH; auto.
+Qed.
+
+Lemma mdns_qname_fold qs : forall acc : bytes,
+  fold_left (fun acc q => let n := fqdn cx1 q in
+               if negb (ends_with tcp_local n) && negb (ends_with udp_local n) && ends_with dot_local n
+               then trim_suffix dot_local n else acc) qs acc =
+  fold_left (fun acc q => let n := fqdn cx2 q in
+               if negb (ends_with tcp_local n) && negb (ends_with udp_local n) && ends_with dot_local n
+               then trim_suffix dot_local n else acc) qs acc.
+Proof.
+  induction qs as [|q r IH]; intros acc; cbn [fold_left]; auto.
+  assert (Hq : fqdn cx1 q = fqdn cx2 q) by (unfold fqdn; rewrite (join_labels_indep cx1 cx2 q E); reflexivity).
+  cbv zeta. rewrite Hq. apply IH.
+Qed.
+
+Lemma mdns_qname_indep m : mdns_qname cx1 m = mdns_qname cx2 m.
+Proof. unfold mdns_qname. apply mdns_qname_fold. Qed.
+
+Lemma mdns_model_ok m : mdns_model cx1 m = mdns_model cx2 m /\ owned (mdns_model cx2 m) = true.
+Proof. unfold mdns_model. destruct (mq_model m); auto using retain_indep, retain_owned. Qed.
+
+Lemma mdns_ent_ok model a :
+  owned model = true ->
+  mdns_ent cx1 model a = mdns_ent cx2 model a /\
+  nm_ok (snd (fst (mdns_ent cx2 model a))) = true /\ owned (snd (mdns_ent cx2 model a)) = true.
+Proof.
+  intros Hm. unfold mdns_ent. rewrite E. unfold fqdn. rewrite (join_labels_indep cx1 cx2 _ E).
+  rewrite !(retain_indep _ cx1 cx2) by auto. cbn [fst snd]. split; [reflexivity|split].
+  - unfold nm_ok; cbn [n_name n_model n_manuf n_os]. rewrite retain_owned, Hm. reflexivity.
+  - apply retain_owned.
+Qed.
+
+Lemma mdns_step_ok slot m fhost st :
+  no_ref st = true ->
+  mdns_step cx1 slot m fhost st = mdns_step cx2 slot m fhost st /\ no_ref (mdns_step cx1 slot m fhost st) = true.
+Proof.
+  intros H. unfold mdns_step. destruct (negb (mq_resp m)).
+  - cbv zeta. rewrite mdns_qname_indep. destruct (is_nil _); auto. destruct fhost as [key|]; auto.
+    rewrite (retain_indep _ cx1 cx2) by auto.
+    apply update_name_ok; auto; unfold nm_ok; cbn [n_name n_model n_manuf n_os]; rewrite ?retain_owned; reflexivity.
+  - cbv zeta. unfold mdns_ckey. rewrite E. destruct (existsb _ (st_mcache st)); auto.
+    destruct (mdns_model_ok m) as [Em Om]. rewrite Em.
+    assert (Ee : map (mdns_ent cx1 (mdns_model cx2 m)) (mq_a m) = map (mdns_ent cx2 (mdns_model cx2 m)) (mq_a m)).
+    { apply map_ext. intros a. destruct (mdns_ent_ok (mdns_model cx2 m) a Om) as [Ea _]. exact Ea. }
+    rewrite Ee. clear Ee.
+    set (ents := map (mdns_ent cx2 (mdns_model cx2 m)) (mq_a m)).
+    assert (Oe : forall x, In x ents -> nm_ok (snd (fst x)) = true /\ owned (snd x) = true).
+    { intros x Hx. unfold ents in Hx. apply in_map_iff in Hx as (a & Ea & _). subst x.
+      destruct (mdns_ent_ok (mdns_model cx2 m) a Om) as (_ & O1 & O2). auto. }
+    rewrite (retain_indep _ cx1 cx2 (Fresh _)) by auto.
+    match goal with |- context [set_mcache st ?x] => set (mc := x) end.
+    assert (N1 : no_ref (set_mcache st mc) = true).
+    { apply set_mcache_no_ref; auto. unfold mc. apply forallb_snoc; [nr_destruct H; auto|].
+      unfold mcache_ok; cbn [mc_key mc_ents]. rewrite retain_owned. cbn [andb].
+      rewrite forallb_forall. intros y Hy. apply in_map_iff in Hy as (x & Ex & Hx). subst y. cbn [fst snd].
+      destruct (Oe x Hx) as [O1 O2]. unfold nm_ok in O1. split_ok. and_ok; auto. }
+    apply fold_update_name_ok; auto.
+    rewrite forallb_forall. intros x Hx. destruct (Oe x Hx) as [O1 _]. exact O1.
+Qed.
+
+Lemma nbns_step_ok l fhost st :
+  no_ref st = true ->
+  nbns_step cx1 l fhost st = nbns_step cx2 l fhost st /\ no_ref (nbns_step cx1 l fhost st) = true.
+Proof.
+  intros H. unfold nbns_step. destruct l as [l|]; auto. destruct fhost as [key|]; auto.
+  rewrite (lval_indep cx1 cx2) by auto. destruct (is_nil _); auto.
+  rewrite (retain_indep _ cx1 cx2) by auto.
+  apply update_name_ok; auto; unfold nm_ok; cbn [n_name n_model n_manuf n_os]; rewrite ?retain_owned; reflexivity.
+Qed.
+
+Lemma ssdp_step_ok a b o fhost st :
+  no_ref st = true ->
+  ssdp_step cx1 a b o fhost st = ssdp_step cx2 a b o fhost st /\ no_ref (ssdp_step cx1 a b o fhost st) = true.
+Proof. intros H. unfold ssdp_step. destruct fhost as [key|]; auto. apply update_name_ok; auto. Qed.
+
+End Handlers.
 
 (* ---------------------------------------------------------------- *)
 (* steps *)
 
-Lemma lstep_indep c s1 s2 o st : no_ref st = true -> lstep c s1 o st = lstep c s2 o st.
+Lemma fold_delete_host_ok cx1 cx2 keys : forall st,
+  no_ref st = true ->
+  fold_left (fun st' k => delete_host cx1 k st') keys st = fold_left (fun st' k => delete_host cx2 k st') keys st /\
+  no_ref (fold_left (fun st' k => delete_host cx1 k st') keys st) = true.
 Proof.
-  intros H. destruct o as [keys|]; simpl.
-  - f_equal. revert st H. induction keys as [|k r IH]; simpl; auto.
-    intros st H. rewrite (delete_host_indep s1 s2) by auto. apply IH. apply delete_host_no_ref; auto.
-  - f_equal. apply dump_indep; auto.
+  induction keys as [|k r IH]; intros st H; cbn [fold_left]; auto.
+  destruct (delete_host_ok cx1 cx2 k st H) as [E1 N1]. rewrite E1 in *. apply IH; auto.
 Qed.
 
-Lemma lstep_no_ref c s o st : no_ref st = true -> no_ref (fst (lstep c s o st)) = true.
+Lemma show_probe_indep cx1 cx2 h : host_ok h = true -> show_probe cx1 h = show_probe cx2 h.
 Proof.
-  intros H. destruct o as [keys|]; simpl; auto.
-  revert st H. induction keys as [|k r IH]; simpl; auto.
-  intros st H. apply IH. apply delete_host_no_ref; auto.
+  intros H. unfold host_ok in H. split_ok. unfold show_probe.
+  rewrite (rd_owned cx1 cx2 (h_ip h)), (rd_owned cx1 cx2 (h_mac h)) by auto. reflexivity.
 Qed.
 
-Lemma rstep_indep c s1 s2 b1 b2 frame st :
-  no_ref st = true -> rstep c s1 b1 frame st = rstep c s2 b2 frame st.
-Proof. intros H. unfold rstep. f_equal. apply parse_hosts_indep; auto. Qed.
+Lemma lstep_ok c s1 s2 o st :
+  no_ref st = true -> lstep c s1 o st = lstep c s2 o st /\ no_ref (fst (lstep c s1 o st)) = true.
+Proof.
+  intros H. assert (E : cxeq (nocx s1) (nocx s2)) by reflexivity.
+  destruct o as [keys|key|ip|]; unfold lstep; cbv zeta.
+  - destruct (fold_delete_host_ok (nocx s1) (nocx s2) keys st H) as [E1 N1]. rewrite E1 in *. auto.
+  - destruct (find_host key (st_hosts st)) as [h|] eqn:F; auto.
+    pose proof (find_host_ok key st h H F) as Hok.
+    destruct (h_online h); auto.
+    destruct (make_offline_ok (nocx s1) (nocx s2) key st H) as [E1 N1]. rewrite E1 in *.
+    destruct (make_offline (nocx s2) key st) as [st1 outs]. cbn [fst] in *.
+    rewrite (show_probe_indep (nocx s1) (nocx s2) h Hok). auto.
+  - rewrite (hunt_step_indep (nocx s1) (nocx s2) E ip st H). auto.
+  - rewrite (dump_indep s1 s2 st H). auto.
+Qed.
 
-Lemma rstep_no_ref c s b frame st : no_ref st = true -> no_ref (fst (rstep c s b frame st)) = true.
-Proof. intros H. unfold rstep; simpl. apply parse_hosts_no_ref; auto. Qed.
+Lemma rstep_ok c s1 s2 b1 b2 frame k st :
+  no_ref st = true ->
+  rstep c s1 b1 frame k st = rstep c s2 b2 frame k st /\ no_ref (fst (rstep c s1 b1 frame k st)) = true.
+Proof.
+  intros H. unfold rstep. cbv zeta.
+  set (cx1 := {| cx_s := s1; cx_buf := b1; cx_frame := frame |}).
+  set (cx2 := {| cx_s := s2; cx_buf := b2; cx_frame := frame |}).
+  assert (E : cxeq cx1 cx2) by reflexivity.
+  destruct (parse_hosts_ok cx1 cx2 E c st H) as [Ep Np]. rewrite Ep in *.
+  destruct (parse_hosts c cx2 st) as [[st1 fhost] trans]. cbn [fst] in Np.
+  (* handler *)
+  match goal with |- context [let '(st2, outs) := ?hd in _] =>
+    match hd with context [cx1] => set (h1 := hd) end end.
+  match goal with |- (_ = let '(st2, outs) := ?hd in _) /\ _ => set (h2 := hd) end.
+  assert (Hh : h1 = h2 /\ no_ref (fst h1) = true).
+  { unfold h1, h2. destruct k as [|m|m|m|m|m|l|a b o]; cbn [fst].
+    - auto.
+    - apply dhcp_step_ok; auto.
+    - destruct (ra_step_ok cx1 cx2 E m fhost st1 Np) as [E1 N1]. rewrite E1 in *. auto.
+    - destruct (dns_step_ok cx1 cx2 E m st1 Np) as [E1 N1]. rewrite E1 in *. auto.
+    - destruct (mdns_step_ok cx1 cx2 E NM_MDNS m fhost st1 Np) as [E1 N1]. rewrite E1 in *. auto.
+    - destruct (mdns_step_ok cx1 cx2 E NM_LLMNR m fhost st1 Np) as [E1 N1]. rewrite E1 in *. auto.
+    - destruct (nbns_step_ok cx1 cx2 E l fhost st1 Np) as [E1 N1]. rewrite E1 in *. auto.
+    - destruct (ssdp_step_ok cx1 cx2 a b o fhost st1 Np) as [E1 N1]. rewrite E1 in *. auto. }
+  destruct Hh as [Eh Nh]. rewrite Eh in *. clearbody h2. clear h1 Eh.
+  destruct h2 as [st2 outs]. cbn [fst] in Nh.
+  (* notify *)
+  assert (Hn : forall key tr, notify_host cx1 key tr st2 = notify_host cx2 key tr st2 /\ no_ref (fst (notify_host cx1 key tr st2)) = true)
+    by (intros; apply notify_host_ok; auto).
+  assert (Hm : find_mac cx1 (sub frame 6 6) (st_macs st2) = find_mac cx2 (sub frame 6 6) (st_macs st2))
+    by (apply find_mac_indep; apply nr_macs; auto).
+  destruct fhost as [key|].
+  - destruct (Hn key trans) as [E1 N1]. rewrite E1 in *. destruct (notify_host cx2 key trans st2). auto.
+  - destruct k; auto. rewrite Hm. destruct (find_mac cx2 _ _) as [e|]; auto.
+    destruct (is_nil (me_offer e)); auto.
+    destruct (Hn (me_offer e) true) as [E1 N1]. rewrite E1 in *. destruct (notify_host cx2 (me_offer e) true st2). auto.
+Qed.
 
 (* ---------------------------------------------------------------- *)
 (* histories: reference semantics on the packet-level projection *)
 
 Definition pstep (c : cfg) (acc : state * list string) (p : pop) : state * list string :=
   match p with
-  | PRecv f => let '(st, o) := rstep c [] 0 f (fst acc) in (st, snd acc ++ [o])
+  | PRecv f k => let '(st, o) := rstep c [] 0 f k (fst acc) in (st, snd acc ++ [o])
   | PLib o => let '(st, r) := lstep c [] o (fst acc) in (st, snd acc ++ [r])
   end.
 Definition prun (c : cfg) (p : list pop) (acc : state * list string) : state * list string :=
@@ -320,14 +986,12 @@ Lemma estep_sim c w e :
   let w' := estep c w e in
   (w_state w', w_out w') = prun c (proj1 e) (w_state w, w_out w) /\ no_ref (w_state w') = true.
 Proof.
-  intros H. destruct e as [buf frame|buf bc|o]; unfold prun; cbn [estep proj1 fold_left pstep fst snd].
+  intros H. destruct e as [buf frame k|buf bc|o]; unfold prun; cbn [estep proj1 fold_left pstep fst snd].
   - set (s := sset (w_store w) buf (bwrite frame (sget (w_store w) buf))).
-    rewrite (rstep_indep c s [] buf 0) by auto.
-    pose proof (rstep_no_ref c [] 0 frame (w_state w) H) as Hn.
-    destruct (rstep c [] 0 frame (w_state w)) as [st o]. cbn [fst snd w_state w_out] in *. auto.
+    destruct (rstep_ok c s [] buf 0 frame k (w_state w) H) as [E1 N1]. rewrite E1 in *.
+    destruct (rstep c [] 0 frame k (w_state w)) as [st o]. cbn [fst snd w_state w_out] in *. auto.
   - cbn [w_state w_out]. auto.
-  - rewrite (lstep_indep c (w_store w) []) by auto.
-    pose proof (lstep_no_ref c [] o (w_state w) H) as Hn.
+  - destruct (lstep_ok c (w_store w) [] o (w_state w) H) as [E1 N1]. rewrite E1 in *.
     destruct (lstep c [] o (w_state w)) as [st r]. cbn [fst snd w_state w_out] in *. auto.
 Qed.
 
@@ -344,6 +1008,32 @@ Proof.
   - destruct (estep_sim c w e H) as [E Hn]. cbv zeta in E.
     destruct (IH (estep c w e) Hn) as [E' Hn']. cbv zeta in E'.
     split; auto. rewrite E'. rewrite prun_app. rewrite <- E. reflexivity.
+Qed.
+
+Definition init_one (mac ip : bytes) (g : macentry -> macentry) (st : state) : state :=
+  let st1 := find_or_create_host (nocx []) (Fresh mac) (Fresh ip) st in
+  let st1 := upd_host ip (fun h => h_with_online h true) st1 in
+  match find_host ip (st_hosts st1) with Some h => upd_me (h_me h) g st1 | None => st1 end.
+
+Lemma init_one_no_ref mac ip g st : me_same g -> no_ref st = true -> no_ref (init_one mac ip g st) = true.
+Proof.
+  intros Hg H. unfold init_one. cbv zeta.
+  assert (E : cxeq (nocx []) (nocx [])) by reflexivity.
+  destruct (find_or_create_host_ok (nocx []) (nocx []) E (Fresh mac) (Fresh ip) st H eq_refl eq_refl) as [_ N1].
+  set (st1 := find_or_create_host _ _ _ st) in *.
+  set (st1a := upd_host ip _ st1).
+  assert (N1a : no_ref st1a = true) by (apply upd_host_no_ref; auto using h_same_online).
+  destruct (find_host ip (st_hosts st1a)); auto. apply upd_me_no_ref; auto.
+Qed.
+
+Lemma init_state_no_ref c : no_ref (init_state c) = true.
+Proof.
+  change (init_state c) with
+    (init_one (c_router_mac c) (c_router_ip c) (fun e => me_with_router (me_with_online (me_with_ip4 e (c_router_ip c)) true) true)
+       (init_one (c_host_mac c) (c_host_ip c) (fun e => me_with_online (me_with_ip4 e (c_host_ip c)) true)
+          {| st_hosts := []; st_macs := []; st_next := 0; st_leases := []; st_routers := []; st_dns := []; st_mcache := [] |})).
+  apply init_one_no_ref; [intros e He; exact He|].
+  apply init_one_no_ref; [intros e He; exact He|]. reflexivity.
 Qed.
 
 Theorem no_ref_invariant c h : no_ref (w_state (erun c h)) = true.
@@ -365,9 +1055,9 @@ Theorem noninterference c h1 h2 : proj h1 = proj h2 -> transcript c h1 = transcr
 Proof. intros E. rewrite !transcript_proj, E. reflexivity. Qed.
 
 Lemma proj_shared scr p : forall i, proj (shared_run scr i p) = p.
-Proof. induction p as [|[f|o] r IH]; intros i; simpl; auto; rewrite IH; reflexivity. Qed.
+Proof. induction p as [|[f k|o] r IH]; intros i; simpl; auto; rewrite IH; reflexivity. Qed.
 Lemma proj_fresh p : forall n, proj (fresh_run n p) = p.
-Proof. induction p as [|[f|o] r IH]; intros n; simpl; auto; rewrite IH; reflexivity. Qed.
+Proof. induction p as [|[f k|o] r IH]; intros n; simpl; auto; rewrite IH; reflexivity. Qed.
 
 Theorem shared_equals_fresh c scr p :
   transcript c (shared_run scr 0 p) = transcript c (fresh_run 0 p).
@@ -377,11 +1067,34 @@ Proof. apply noninterference. rewrite proj_shared, proj_fresh. reflexivity. Qed.
 Theorem no_ref_observe_indep s1 s2 st : no_ref st = true -> dump s1 st = dump s2 st.
 Proof. apply dump_indep. Qed.
 
-(* non-vacuity: a concrete history with hosts created from ARP, IPv4 and IPv6 frames, a purge and a dump *)
+(* every single library call on a NoRef state is independent of the store and of the buffer id *)
+Theorem no_ref_step_indep c s1 s2 b1 b2 frame k st :
+  no_ref st = true -> rstep c s1 b1 frame k st = rstep c s2 b2 frame k st.
+Proof. intros H. apply rstep_ok. exact H. Qed.
+
+(* ---------------------------------------------------------------- *)
+(* Sharpness: the invariant is exactly what carries the theorem.  A state with one Ref field
+   (what a retention point that stores a sub-slice would produce) is observably changed by a scribble. *)
+Definition ex_ref_state : state :=
+  {| st_hosts := [{| h_ip := Owned [192;168;0;5]; h_key := [192;168;0;5]; h_me := 0; h_mac := Ref 0 6 6;
+                     h_online := true; h_dirty := false; h_names := names0 |}];
+     st_macs := []; st_next := 1; st_leases := []; st_routers := []; st_dns := []; st_mcache := [] |}.
+
+Lemma ref_state_observable :
+  no_ref ex_ref_state = false /\
+  dump [{| b_pre := [0;0;0;0;0;0;2;0;0;0;0;1]; b_fill := 0; b_stp := 0 |}] ex_ref_state <>
+  dump [{| b_pre := []; b_fill := 165; b_stp := 0 |}] ex_ref_state.
+Proof. split; [reflexivity|]. vm_compute. discriminate. Qed.
+
+(* non-vacuity: a concrete history with a host created from an ARP frame, a dump, a purge and the frame again;
+   its final state is a non-trivial NoRef state (three hosts, three MAC entries) *)
 Definition ex_arp : bytes :=
   [255;255;255;255;255;255; 2;0;0;0;0;1; 8;6; 0;1; 8;0; 6;4; 0;1; 2;0;0;0;0;1; 192;168;0;5; 0;0;0;0;0;0; 192;168;0;11].
-Definition ex_hist : list pop := [PRecv ex_arp; PLib LDump; PLib (LPurge [[192;168;0;5]]); PRecv ex_arp].
+Definition ex_hist : list pop :=
+  [PRecv ex_arp KPlain; PLib LDump; PLib (LPurge [[192;168;0;5]]); PRecv ex_arp KPlain; PLib (LOffline [192;168;0;5])].
+Definition ex_scr : nat -> bufc := fun _ => {| b_pre := []; b_fill := 165; b_stp := 0 |}.
 
 Example ex_hist_creates_host :
-  List.length (st_hosts (w_state (erun std_cfg (shared_run (fun _ => {| b_pre := []; b_fill := 165; b_stp := 0 |}) 0 ex_hist)))) = 3%nat.
-Proof. vm_compute. reflexivity. Qed.
+  let st := w_state (erun std_cfg (shared_run ex_scr 0 ex_hist)) in
+  List.length (st_hosts st) = 3%nat /\ List.length (st_macs st) = 3%nat /\ no_ref st = true.
+Proof. vm_compute. auto. Qed.
